@@ -109,10 +109,10 @@ def impl(case):
             try:
                 if win is not None and (kw['wav_min'].unit != u.micron or kw['wav_max'].unit != u.micron):
                     # the same window written in micron: the set of files must not depend on the unit the window is written in
-                    convolve_model_dir_monochromatic(d, max_ram=_max_ram(chunk, nm, nap), wav_min=win[0] * u.micron, wav_max=win[1] * u.micron)
+                    convolve_model_dir_monochromatic(d, max_ram=(np.inf if chunk == len(pkg['wav']) and ri % 2 == 0 else _max_ram(chunk, nm, nap)), wav_min=win[0] * u.micron, wav_max=win[1] * u.micron)
                     files_um = sorted(f[:-5] for f in os.listdir(cd))
                     shutil.rmtree(cd)
-                t = convolve_model_dir_monochromatic(d, max_ram=_max_ram(chunk, nm, nap), **kw)
+                t = convolve_model_dir_monochromatic(d, max_ram=(np.inf if chunk == len(pkg['wav']) and ri % 2 == 0 else _max_ram(chunk, nm, nap)), **kw)
             except Exception as e:
                 res.append(dict(exc='%s: %s' % (type(e).__name__, str(e)[:120])))
                 continue
